@@ -208,7 +208,7 @@ def run(ctx):
     c5 = engine.Ctx("C04", "quick", facts, 0)
     try:
         rules_C05.run(c5)
-        n7 = engine.take_over(ctx, c5.obs, lambda o: o.rule == "C05.1" and o.key.split("|")[-1] in ("table", "answer-applied"), "C04.7")
+        n7 = engine.take_over(ctx, c5.obs, lambda o: (o.rule == "C05.1" and o.key.split("|")[-1] in ("table", "answer-applied")) or (o.rule == "C05.3" and o.key.endswith("|passes-request-version")), "C04.7")
         ctx.floor("C04.7 obligations taken from the coding chooser", n7, 2)
     except CheckerError as e:
         raise CheckerError("C04.7 (the coding chooser could not be evaluated): %s" % e)
